@@ -67,9 +67,12 @@ static JanetTable *tab_any_table(int32_t cap, JanetTable *proto) {
 }
 
 /* ---- contract of janet_table_rehash (proved by units tab.rehash.*; used in place of the real one by the put units)
- *   requires wf_table(t) without the load clause, size a power of two, size >= t->count
- *   ensures  t->data is a NEW exact block of size buckets without tombstones, old block released, capacity == size,
- *            deleted == 0, count unchanged, wf_dict, and every key of the universe maps to the same value as before */
+ *   requires wf_table(t) (both in-tree callers, janet_table_put and janet_table_put_no_overwrite, call it on a well-formed
+ *            table that reached the load limit), size a power of two, size >= t->count
+ *   ensures  t->data is a NEW exact block of size buckets without tombstones, the old block is freed, capacity == size,
+ *            deleted == 0, count unchanged, wf_dict, and every key of the universe maps to the same value as before
+ * The model below picks ANY such block (nondeterministic contents constrained by the ensures clause), so the put units
+ * do not depend on the order in which the real function re-inserts the entries. */
 static int32_t g_rh_calls;
 static void tab_rehash_model(JanetTable *t, int32_t size, const Janet *oldv) {   /* size: a constant at every call */
   JanetKV *nb = tab_any_buckets(size);
